@@ -256,6 +256,8 @@ type Stats struct {
 	Budget      int               `json:"budget_exceeded"`
 	WallS       float64           `json:"wall_s"`
 	StoppedByBudget bool          `json:"stopped_by_budget"`
+	Exhaustive      int           `json:"exhaustive_cases"`
+	ExhaustiveWhat  string        `json:"exhaustive_what"`
 	LogHashes   []string          `json:"log_hashes,omitempty"`
 }
 
@@ -376,6 +378,8 @@ func repSteps(r *simrt.Report) int {
 
 func (r *runner) writeStats(start time.Time) {
 	s := &r.stats
+	s.Exhaustive = pendingExhaustive[s.Property]
+	s.ExhaustiveWhat = pendingExhaustiveText[s.Property]
 	s.WallS = time.Since(start).Seconds()
 	s.Sigs = s.Sigs[:0]
 	for k := range r.sigs {
@@ -398,6 +402,29 @@ func harnessFail(prop string, sc Scenario, msg string) {
 	}
 	fmt.Fprintf(os.Stderr, "HARNESS-ERROR property=%s: %s\nscenario: %s\n", prop, msg, data)
 	os.Exit(2)
+}
+
+var pendingExhaustive = map[string]int{}
+var pendingExhaustiveText = map[string]string{}
+
+// NoteExhaustive records that a finite sub-space was enumerated completely before the seeded search.
+func NoteExhaustive(prop, what string, count int) {
+	pendingExhaustive[prop] += count
+	pendingExhaustiveText[prop] = what
+}
+
+// EmitViolation writes the replay file for an explicitly constructed failing scenario,
+// prints the VIOLATION line and terminates the worker.
+func EmitViolation(p *Property, sc Scenario, out *Outcome) {
+	r := &runner{prop: p}
+	f := &failure{Scenario: sc, Violations: out.Violations, LogHash: out.LogHash}
+	if out.Rep != nil {
+		f.TraceHash = out.Rep.TraceHash
+	}
+	r.last = f
+	path := r.writeReplay(envInt("VERIF_SEED", 1))
+	fmt.Printf("VIOLATION property=%s replay=%s\n  kind=%s\n  %s\n", p.ID, path, out.Violations[0].Kind, out.Violations[0].Msg)
+	os.Exit(1)
 }
 
 // RunProperty is the body of every TestCxx.
